@@ -203,6 +203,11 @@ def typed_case(item):
         for ri in range(cfg['nres']):
             k = r.randint(2, 6)
             types = [r.choice(TYPES) for _ in range(k)]
+            if cfg['temporal'] and r.random() < 0.6:
+                # several fields of ONE temporal type in a resource, each with its own output format (or none)
+                tt = r.choice(['date', 'time', 'datetime'])
+                for j in r.sample(range(k), min(k, r.randint(2, 3))):
+                    types[j] = tt
             names = ['f%d' % i for i in range(k)]
             if cfg['order'] == 'reversed':
                 names = names[::-1]
@@ -212,7 +217,11 @@ def typed_case(item):
             for n, tp in zip(names, types):
                 extra = {}
                 if cfg['temporal'] and tp in ('date', 'time', 'datetime'):
-                    extra['outputFormat'] = {'date': '%d/%m/%Y', 'time': '%H|%M|%S', 'datetime': '%Y%m%d %H-%M-%S'}[tp]
+                    fmt = r.choice({'date': ['%d/%m/%Y', '%m/%d/%Y', '%Y.%m.%d', None],
+                                    'time': ['%H|%M|%S', '%S-%M-%H', None],
+                                    'datetime': ['%Y%m%d %H-%M-%S', '%d/%m/%Y %H:%M:%S', None]}[tp])
+                    if fmt is not None:
+                        extra['outputFormat'] = fmt
                 elif r.random() < 0.4:
                     # lexical properties the field arrives with (e.g. from the source it was loaded from): the dumper writes
                     # its own lexical forms and must record THEM
